@@ -1077,6 +1077,8 @@ class Interp:
         if isinstance(a, VStr) and isinstance(b, VStr):
             if isinstance(op, ast.Add):
                 return VStr(z3.Concat(a.t, b.t))
+        if isinstance(b, (VStr, VSeq)) and self.is_intlike(a) and isinstance(op, ast.Mult):
+            a, b = b, a                     # n * seq == seq * n
         if isinstance(a, (VStr, VSeq)) and self.is_intlike(b) and isinstance(op, ast.Mult):
             self.alloc_obligation(self.as_int(b) * (1 if isinstance(a, VStr) else z3.Length(a.t)), fr, node, 'seq * n')
         if isinstance(a, VStr) and self.is_intlike(b) and isinstance(op, ast.Mult):
